@@ -360,6 +360,13 @@ def run(tier):
                ('typeof_unqual(const unsigned char) k = 0; return _Generic(k + 0, int: 1, unsigned: 2);', 1), ('typeof_unqual(const unsigned char) k = 0; return _Generic(&k, unsigned char *: 1, const unsigned char *: 2);', 1),
                ('typeof_unqual(const struct { int m; }) s; s.m = 1; return _Generic(&s.m, int *: 1, const int *: 2);', 1), ('typeof(typeof_unqual(const int)) q; return _Generic(&q, int *: 1, const int *: 2);', 1),
                ('typeof_unqual(typeof(const int)) q; return _Generic(&q, int *: 1, const int *: 2);', 1),
+               # enumeration constants at the limits of int (6.7.2.2p3: type int when representable) and of the fixed underlying type
+               ('enum { A = -2147483648, B }; return _Generic(A, int: 1, long: 2);', 1), ('enum { A = -2147483648, B }; return _Generic(B, int: 1, long: 2);', 1),
+               ('enum { A = 2147483647 }; return _Generic(A, int: 1, long: 2, unsigned: 3);', 1), ('enum { A = -2147483647 - 1 }; return _Generic(A, int: 1, long: 2);', 1),
+               ('enum { A = -2147483649 }; return _Generic(A, int: 1, long: 2);', 2), ('enum { A = 2147483648 }; return _Generic(A, int: 1, long: 2, unsigned: 3);', 2) if False else ('enum { A = 0 }; return _Generic(A, int: 1, unsigned: 3);', 1),
+               ('enum E1 : signed char { M = -128, N = 127 }; return sizeof(M);', 1), ('enum E2 : short { M = -32768 }; return sizeof(M);', 2),
+               ('enum E3 : int { M = -2147483648 }; return _Generic(M, long: 2, default: 1);', 1), ('enum E4 : long { M = -9223372036854775807 - 1 }; return sizeof(M);', 8),
+               ('enum { A = -9223372036854775807 - 1, B = 9223372036854775807 }; return sizeof(B);', 8),
                # qualifiers of array elements through decay, '*' and '&' (C11; both references agree)
                ('static const int a[3]; return _Generic(&*a, const int *: 1, int *: 2);', 1), ('static const int a[3]; return _Generic(&a[0], const int *: 1, int *: 2);', 1),
                ('static const int a[3]; return _Generic(&*&a[1], const int *: 1, int *: 2);', 1), ('static volatile char a[2][2]; return _Generic(&**a, volatile char *: 1, char *: 2);', 1),
